@@ -146,6 +146,7 @@ PROPS["C17"] = {
         + random_jobs(tier, cfgs=("dbg", "alloc", "nostd"))
     ),
     "crate_builds": [("no-default-features", ["--no-default-features"]), ("alloc-only", ["--no-default-features", "--features", "alloc"])],
+    "link_probe": True,
     "require_counters": ["alloc_scopes_checked"],
     "assumptions": COMMON_ASSUME + ["allocations made by element callbacks and by the harness are excluded by a thread-local suspend counter"],
 }
@@ -437,6 +438,10 @@ for _p in ("C01", "C02", "C03", "C07", "C08", "C09", "C11"):
 # also feeds C01 and C07
 for _p in ("C01", "C07"):
     with_jobs(_p, lambda tier: [S("dbg", "iters", "--n", ns(0, q(tier, 4, 6))), S("rel", "iters", "--n", ns(0, q(tier, 5, 7)))])
+
+with_jobs("C06", zst_extra)
+# large buffers (> 64 KiB): clone / clone_from / fill in random histories of the 128-byte element
+with_jobs("C17", lambda tier: [S("rel", "random", "--n", "1000", "--elem", "wide", "--ops", q(tier, 20000, 200000), "--emit-distinct", 1)])
 
 # C17: the byte-stream traits are operations too (write, write_all, read, read_exact, consume, flush
 # and Extend<&u8> must not allocate)
